@@ -7,7 +7,8 @@
 //! choose whether that collection was an emergency collection).  The `AllocatorContext` comes from
 //! the `verif_new` hook (stress testing off; the GC trigger is never consulted on this path).
 //! Oracle: `Collection::out_of_memory` is called only if `allow_oom_call`, only after at least
-//! one collection was attempted for this request, at most once, and the request then returns null;
+//! one collection was attempted for this request and the retry after it failed too, at most once,
+//! and the request then returns null;
 //! with `at_safepoint == false` a failed attempt returns null at once, without a collection.
 
 use crate::vm::*;
@@ -24,6 +25,30 @@ pub struct HAlloc {
     attempts: usize,
     collections: usize,
     max_attempts: usize,
+    /// Play an allocator (bump / large object) that first asks the real
+    /// `handle_obvious_oom_request` and gives up on this attempt if it says so.
+    ask_obvious: bool,
+}
+
+/// GC trigger policy of the harness: only the maximum heap size is ever asked for.
+pub static mut MAX_HEAP_PAGES: usize = 0;
+pub struct HPolicy;
+impl mmtk::util::heap::GCTriggerPolicy<VmA> for HPolicy {
+    fn is_gc_required(&self, _space_full: bool, _space: Option<mmtk::util::heap::SpaceStats<VmA>>, _plan: &dyn mmtk::Plan<VM = VmA>) -> bool {
+        unimplemented!()
+    }
+    fn is_heap_full(&self, _plan: &dyn mmtk::Plan<VM = VmA>) -> bool {
+        unimplemented!()
+    }
+    fn get_current_heap_size_in_pages(&self) -> usize {
+        unimplemented!()
+    }
+    fn get_max_heap_size_in_pages(&self) -> usize {
+        unsafe { MAX_HEAP_PAGES }
+    }
+    fn can_heap_size_grow(&self) -> bool {
+        unimplemented!()
+    }
 }
 
 impl Allocator<VmA> for HAlloc {
@@ -48,9 +73,17 @@ impl Allocator<VmA> for HAlloc {
         self.alloc_slow_once(size, align, offset)
     }
     /// Plays `Space::acquire`.
-    fn alloc_slow_once(&mut self, _size: usize, _align: usize, _offset: usize) -> Address {
+    fn alloc_slow_once(&mut self, size: usize, _align: usize, _offset: usize) -> Address {
         let s = unsafe { &mut *self.src };
         self.attempts += 1;
+        if self.ask_obvious {
+            // as BumpAllocator::acquire_block and LargeObjectAllocator::alloc_slow_once do
+            chk!(s, "a request larger than the maximum heap fails immediately: it is not retried", self.attempts <= 1);
+            s.assume(self.attempts <= 1);
+            if self.handle_obvious_oom_request(self.get_tls(), size) {
+                return Address::ZERO;
+            }
+        }
         // bound: the request is resolved within `max_attempts` attempts
         s.assume(self.attempts <= self.max_attempts);
         let succeed = s.any_bool();
@@ -77,11 +110,14 @@ pub fn c10_retry_loop(s: &mut Src) {
     unsafe {
         OOM_CALLS = 0;
     }
-    let mut a = HAlloc { ctx, src: s as *mut Src, attempts: 0, collections: 0, max_attempts: 4 };
+    let mut a = HAlloc { ctx, src: s as *mut Src, attempts: 0, collections: 0, max_attempts: 4, ask_obvious: false };
     let r = a.alloc_with_options(64, 8, 0, opts);
     let oom = unsafe { OOM_CALLS };
     chk!(s, "out_of_memory is never called when allow_oom_call is false", oom == 0 || opts.allow_oom_call);
     chk!(s, "out_of_memory is called only after a collection was attempted for the request", oom == 0 || a.collections >= 1);
+    // "cannot be satisfied": the collection attempted for the request must be followed by a retry that
+    // fails too; a request whose first collection may have made room is not out of memory (seed C10-c)
+    chk!(s, "out_of_memory is declared only after a retry that followed a collection for this request failed as well", oom == 0 || a.attempts >= 2);
     chk!(s, "out_of_memory is called at most once per request", oom <= 1);
     chk!(s, "a request that reported out-of-memory returns null", oom == 0 || r.is_zero());
     chk!(s, "without a safepoint a failed attempt returns null at once, without a collection", opts.at_safepoint || (a.collections == 0 && (a.attempts == 1)));
@@ -94,6 +130,35 @@ pub fn c10_retry_loop(s: &mut Src) {
     cov!(s, "three attempts", a.attempts >= 3);
 }
 
+/// A request larger than the maximum heap ("obvious" out of memory): the real
+/// `handle_obvious_oom_request` -> `GCTrigger::will_oom_on_alloc` says so on every attempt, no
+/// collection can help.  The request must fail immediately for every option combination.
+pub fn c10_obvious_oom(s: &mut Src) {
+    let ctx = AllocatorContext::<VmA>::verif_new();
+    ctx.verif_set_trigger_policy(Box::new(HPolicy));
+    let opts = AllocationOptions { allow_overcommit: s.any_bool(), at_safepoint: s.any_bool(), allow_oom_call: s.any_bool() };
+    ctx.verif_set_emergency_collection(s.any_bool());
+    ctx.verif_set_allocation_success(s.any_bool());
+    let max_pages = s.any_in(0, 1 << 30);
+    let size = s.any_usize();
+    s.assume(size >> 12 > max_pages);
+    unsafe {
+        OOM_CALLS = 0;
+        MAX_HEAP_PAGES = max_pages;
+    }
+    let mut a = HAlloc { ctx, src: s as *mut Src, attempts: 0, collections: 0, max_attempts: 4, ask_obvious: true };
+    let r = a.alloc_with_options(size, 8, 0, opts);
+    let oom = unsafe { OOM_CALLS };
+    chk!(s, "obvious OOM: the request returns null", r.is_zero());
+    chk!(s, "obvious OOM: out_of_memory is called exactly when allow_oom_call is set", oom == if opts.allow_oom_call { 1 } else { 0 });
+    chk!(s, "obvious OOM: no collection is attempted (none can help)", a.collections == 0);
+    chk!(s, "obvious OOM: the per-request thrown-OOM flag is cleared when the request returns", !ctx.verif_thrown_oom());
+    chk!(s, "obvious OOM: the allocation options are reset after the request", ctx.verif_alloc_options() == AllocationOptions::default());
+    cov!(s, "obvious OOM without the call-back at a safepoint", !opts.allow_oom_call && opts.at_safepoint);
+    cov!(s, "obvious OOM with the call-back", opts.allow_oom_call && oom == 1);
+}
+
 harnesses! {
     #[kani::unwind(6)] #[kani::stub(alloc::fmt::format, crate::env::stub_format)] c10_retry_loop; // timeout=900
+    #[kani::unwind(6)] #[kani::stub(alloc::fmt::format, crate::env::stub_format)] c10_obvious_oom; // timeout=900
 }
